@@ -2,7 +2,7 @@
 
    commits  c1 (no package)  c2 (package with a syntax error)  c3 (package, API 1)  c4 (package, API 2)  c5 (HEAD)
    tags     v0 -> c1, bad -> c2, v1 -> c3 (latest tag)
-   branches main -> c5 (checked out), feat/x -> c4, x -> c3, griffe-x -> c3 (a user branch named like one of
+   branches main -> c5 (checked out), feat/x -> c4, feat-x -> c4 (same normalised name), x -> c3, griffe-x -> c3 (a user branch named like one of
             griffe's temporary branches), wt-user -> c4 (checked out in a user worktree `uwt` next to the repo)
 The `ignored` variant commits a .gitignore with `__pycache__/` in every commit.
 """
@@ -103,6 +103,7 @@ def build_template(dst: str, ignored: bool) -> str:
     git(dst, "add", "-A")
     git(dst, "commit", "-q", "-m", "c4: API 2", date=4)
     git(dst, "branch", "feat/x")
+    git(dst, "branch", "feat-x")
     git(dst, "branch", "wt-user")
     _write(os.path.join(dst, "README.md"), "c20 test repository (head)\n")
     git(dst, "add", "-A")
@@ -110,12 +111,14 @@ def build_template(dst: str, ignored: bool) -> str:
     return dst
 
 
-def instantiate(template: str, base: str, status0: str) -> tuple[str, str]:
+def instantiate(template: str, base: str, status0: str, notags: bool = False) -> tuple[str, str]:
     """Copy the template to `base`/repo, add the user worktree `base`/uwt and (optionally) local modifications."""
     repo = os.path.join(base, "repo")
     shutil.copytree(template, repo, symlinks=True)
     uwt = os.path.join(base, "uwt")
     git(repo, "worktree", "add", "-q", uwt, "wt-user")
+    if notags:
+        git(repo, "tag", "-d", "v0", "bad", "v1")
     if status0 == "dirty":
         with open(os.path.join(repo, "README.md"), "a") as fh:
             fh.write("local, unstaged modification\n")
